@@ -221,6 +221,103 @@ func gridSynthX(gc int, cellsPerRow []int, bare bool) (*document.Document, *docu
 	return gridOpenBytes(nb)
 }
 
+// gridForeign opens a package whose main part holds the given table the way another producer (Word) spells it:
+// the cells are written from the projection of t; a continuation cell carries <w:vMerge/> without w:val (the
+// implicit spelling of "continue"), a cell without content one empty <w:p/>, gridSpan only where it exceeds 1.
+func gridForeign(t *document.Table) (*document.Document, *document.Table) {
+	base := document.New()
+	base.AddParagraph("x")
+	b, err := base.ToBytes()
+	gridMust(err)
+	var sb strings.Builder
+	sb.WriteString(`<w:tbl><w:tblPr><w:tblStyle w:val="TableGrid"/><w:tblW w:w="0" w:type="auto"/></w:tblPr><w:tblGrid>`)
+	gc := 0
+	if t.Grid != nil {
+		gc = len(t.Grid.Cols)
+	}
+	for i := 0; i < gc; i++ {
+		sb.WriteString(`<w:gridCol w:w="1200"/>`)
+	}
+	sb.WriteString(`</w:tblGrid>`)
+	for i := range t.Rows {
+		sb.WriteString(`<w:tr>`)
+		for j := range t.Rows[i].Cells {
+			c := gridProjectCell(&t.Rows[i].Cells[j])
+			span, _ := c["span"].(int)
+			fmt.Fprintf(&sb, `<w:tc><w:tcPr><w:tcW w:w="%d" w:type="dxa"/>`, 1200*span)
+			if span != 1 {
+				fmt.Fprintf(&sb, `<w:gridSpan w:val="%d"/>`, span)
+			}
+			switch c["vm"] {
+			case "restart":
+				sb.WriteString(`<w:vMerge w:val="restart"/>`)
+			case "cont":
+				sb.WriteString(`<w:vMerge/>`)
+			}
+			sb.WriteString(`</w:tcPr>`)
+			np, _ := c["np"].(int)
+			tok, _ := c["tok"].(int)
+			for p := 0; p < np; p++ {
+				if p == 0 && tok != 0 {
+					sb.WriteString(`<w:p><w:r><w:t>` + gridTokText(tok) + `</w:t></w:r></w:p>`)
+				} else {
+					sb.WriteString(`<w:p/>`)
+				}
+			}
+			sb.WriteString(`</w:tc>`)
+		}
+		sb.WriteString(`</w:tr>`)
+	}
+	sb.WriteString(`</w:tbl>`)
+	nb, err := gridReplaceBody(b, sb.String())
+	gridMust(err)
+	return gridOpenBytes(nb)
+}
+
+// gridCreate: the table under test comes into being through one of the constructors, with the argument classes of
+// the abstract operation (dimensions, number of column widths, initial contents). A nil table projects as no table.
+func gridCreate(op Op) (*document.Table, string) {
+	rows, cols, nw := op.Int("rows"), op.Int("cols"), op.Int("nw")
+	w := cols
+	if w < 1 {
+		w = 1
+	}
+	cfg := &document.TableConfig{Rows: rows, Cols: cols, Width: 1200 * w}
+	if nw > 0 {
+		cfg.ColWidths = make([]int, nw)
+		for i := range cfg.ColWidths {
+			cfg.ColWidths[i] = 1000 + 10*i
+		}
+	}
+	if raw, ok := op["grid"].([]interface{}); ok && len(raw) > 0 {
+		for _, rr := range raw {
+			line := []string{}
+			if xs, ok := rr.([]interface{}); ok {
+				for _, x := range xs {
+					if f, ok := x.(float64); ok {
+						line = append(line, gridTokText(int(f)))
+					}
+				}
+			}
+			cfg.Data = append(cfg.Data, line)
+		}
+	}
+	var t *document.Table
+	var err error
+	switch op.Str("via") {
+	case "CreateTable":
+		t, err = document.New().CreateTable(cfg)
+	case "AddTable":
+		t, err = document.New().AddTable(cfg)
+	case "AddNestedTable":
+		_, outer := gridFresh(1, 1)
+		t, err = outer.AddNestedTable(0, 0, cfg)
+	default:
+		return nil, "unknown-op"
+	}
+	return t, errRet(err)
+}
+
 // gridDeepCopy clones a value structurally (pointers, slices with their capacity, structs),
 // so that every behaviour starts from its own private instance of a start table that was
 // built once through the real API / Open.
@@ -318,6 +415,20 @@ func gridBuildStart(k string) (*document.Document, *document.Table) {
 		gridMust(t.MergeCellsVertical(0, 1, 0))
 		gridMust(t.MergeCellsVertical(2, 3, 0))
 		return d, t
+	case "v4", "v4o", "v4w":
+		d, t := gridFresh(4, 2)
+		gridMust(t.MergeCellsVertical(0, 2, 0))
+		if k == "v4o" {
+			return gridReopen(d)
+		}
+		if k == "v4w" {
+			return gridForeign(t)
+		}
+		return d, t
+	case "r4w":
+		_, t := gridFresh(4, 3)
+		gridMust(t.MergeCellsRange(0, 2, 0, 1))
+		return gridForeign(t)
 	case "nn3":
 		d, t := gridFresh(2, 2)
 		in1, err := t.AddNestedTable(0, 0, &document.TableConfig{Rows: 2, Cols: 1, Width: 600})
@@ -679,12 +790,48 @@ func gridExec(t *document.Table, op Op, i int) string {
 	case "ClearCellContent":
 		return errRet(t.ClearCellContent(r, c))
 	case "AddNestedTable":
-		_, err := t.AddNestedTable(r, c, &document.TableConfig{Rows: 1, Cols: 2, Width: 800})
+		cfg := &document.TableConfig{Rows: 1, Cols: 2, Width: 800}
+		switch op.Str("cfg") {
+		case "", "ok":
+		case "no-rows":
+			cfg.Rows = 0
+		case "no-cols":
+			cfg.Cols = 0
+		case "fewer-widths":
+			cfg.ColWidths = []int{400}
+		case "more-widths":
+			cfg.ColWidths = []int{300, 300, 200}
+		default:
+			return "unknown-op"
+		}
+		_, err := t.AddNestedTable(r, c, cfg)
 		return errRet(err)
 	case "AddCellList":
 		return errRet(t.AddCellList(r, c, &document.CellListConfig{Type: document.ListTypeBullet, Items: []string{"+a", "+b"}}))
 	case "CellFmt":
-		switch (i + r + c + 8) % 5 {
+		kind := -1
+		switch op.Str("f") {
+		case "SetCellFormat":
+			kind = 0
+		case "SetCellShading":
+			kind = 1
+		case "SetCellTextDirection":
+			kind = 2
+		case "ClearCellFormat":
+			kind = 3
+		case "RemoveCellBorders":
+			kind = 4
+		case "SetCellBorders":
+			b := &document.BorderConfig{Style: document.BorderStyleSingle, Width: 8, Color: "0000FF"}
+			return errRet(t.SetCellBorders(r, c, &document.CellBorderConfig{Top: b, Left: b, Bottom: b, Right: b, DiagDown: b}))
+		case "SetCellPadding":
+			return errRet(t.SetCellPadding(r, c, 5))
+		case "":
+			kind = (i + r + c + 8) % 5 // behaviours recorded before the call was part of the operation
+		default:
+			return "unknown-op"
+		}
+		switch kind {
 		case 0:
 			return errRet(t.SetCellFormat(r, c, &document.CellFormat{TextFormat: &document.TextFormat{Bold: true}, HorizontalAlign: document.CellAlignCenter, VerticalAlign: document.CellVAlignTop}))
 		case 1:
@@ -707,6 +854,25 @@ func gridExec(t *document.Table, op Op, i int) string {
 	case "ClearTable":
 		t.ClearTable()
 		return "ok"
+	case "TblFmt":
+		switch op.Str("f") {
+		case "ApplyTableStyle":
+			return errRet(t.ApplyTableStyle(&document.TableStyleConfig{StyleID: "TableGrid", FirstRowHeader: true, BandedRows: true, LastColumnTotal: true}))
+		case "SetTableBorders":
+			b := &document.BorderConfig{Style: document.BorderStyleSingle, Width: 6, Color: "00FF00"}
+			return errRet(t.SetTableBorders(&document.TableBorderConfig{Top: b, Left: b, Bottom: b, Right: b, InsideH: b, InsideV: b}))
+		case "SetTableShading":
+			return errRet(t.SetTableShading(&document.ShadingConfig{Pattern: document.ShadingPatternSolid, BackgroundColor: "DDDDDD"}))
+		case "SetTableLayout":
+			return errRet(t.SetTableLayout(&document.TableLayoutConfig{Alignment: document.TableAlignRight}))
+		case "SetTableAlignment":
+			return errRet(t.SetTableAlignment(document.TableAlignLeft))
+		case "RemoveTableBorders":
+			return errRet(t.RemoveTableBorders())
+		case "SetTablePageBreak":
+			return errRet(t.SetTablePageBreak(&document.TablePageBreakConfig{KeepWithNext: true, KeepLines: true}))
+		}
+		return "unknown-op"
 	case "RowFmt":
 		n := t.GetRowCount()
 		if e := t.SetRowHeight(n-1, &document.RowHeightConfig{Height: 20, Rule: document.RowHeightExact}); e != nil {
@@ -731,6 +897,9 @@ func runGrid(c Case, emit Emitter) {
 	var t *document.Table
 	resetDone := false
 	for i, op := range c.Steps {
+		if t == nil && op.Name() != "Start" && op.Name() != "Create" {
+			break // no table came into being (a refused construction): the behaviour ends here
+		}
 		var before map[string]interface{}
 		if t == nil {
 			before = map[string]interface{}{"gc": 0, "rows": []interface{}{}}
@@ -751,6 +920,12 @@ func runGrid(c Case, emit Emitter) {
 				// a start table that cannot be built is trouble of the machinery, not of the library's edits
 				panic("grid: cannot build start table " + op.Str("k") + ": " + pmsg)
 			}
+		case op.Name() == "Create":
+			ret, pmsg = guard(func() string {
+				var r string
+				t, r = gridCreate(op)
+				return r
+			})
 		case t == nil:
 			ret = "unknown-op"
 		case op.Name() == "ReadAll":
